@@ -27,7 +27,7 @@ RULE = ("Hypothesis draws a file history (0..4 earlier runs, matrices 1x1 .. 40x
 LEVEL_TEXT = ("Fault enumeration: for each generated (history, new run) every I/O event of the save is a crash point and all are "
               "executed (exhaustive per case for E <= 400) in three failure modes, with the previous/new file contents as oracle. "
               "The for-all over histories is explored.")
-LEVEL_NOTE = ("Process death is modelled at the Python I/O call boundary (where this code's behaviour is decided) plus torn writes; "
+LEVEL_NOTE = ("Process death is modelled at the Python I/O call boundary (where this code's behaviour is decided; an extra crash point right after every open-for-write, descriptor-level copies intercepted) plus torn writes; "
               "power loss / fsync durability and non-atomic rename across file systems are not observable here and not claimed. "
               "Left-over temporary files are allowed.")
 TECHNIQUE = "fault injection: exhaustive enumeration of I/O crash points (kill / torn write / interrupt) per Hypothesis-generated save history, previous-or-new oracle"
